@@ -1,7 +1,7 @@
 """Claim texts for MANIFEST.json (level_claimed.text / level_note) per property."""
 
 BASE_NOTE = ("Trusted: go/ssa construction, the symgo interpreter and its library models (regexp via regexp/syntax programs, fmt digits, "
-             "bytealg, strings.Builder, UTF-8 decoding, sort swapper, JSON encoder stub), the term simplifier (self-tested against z3 in setup_cmd), "
+             "bytealg, strings.Builder, UTF-8 decoding, sort swapper, encoding/json model, virtual file system), the term simplifier (self-tested against z3 in setup_cmd), "
              "z3 4.8.12. Every run validates path witnesses against the natively compiled real code (observe values must agree) and replays every "
              "counterexample natively before reporting it. Nothing outside the stated bounds is claimed.")
 
@@ -9,17 +9,17 @@ LEVELS = {
     "C16": {
         "text": "Bounded symbolic model checking of the real literal code: for every byte string within the length bounds (all 256 values per byte) "
                 "acceptance by NewTimeFromString/NewDurationFromString/NewDateFromString is proven equivalent to reference recognisers written from "
-                "Specification.md, with equal denotations; round trips, Plus and range arithmetic are proven for all values (dates per century window, "
-                "covering years 0000-9999 in the thorough tier). The solver decides each assertion for all inputs of a path at once - the rare accepted "
+                "Specification.md, with equal denotations; round trips, Plus and range arithmetic are proven for all values (dates per century window; "
+                "33 of the 100 windows in the thorough tier), and writing a value out must leave it unchanged. The solver decides each assertion for all inputs of a path at once - the rare accepted "
                 "strings among 256^n are found by the solver, not sampled.",
         "note": BASE_NOTE + " Date arithmetic (time.Date / civil) is executed from the standard library's SSA; wide mul/div nodes over small-domain "
                 "variables are tabulated exactly by the engine after case-splitting month/day digits.",
     },
     "C06": {
         "text": "Bounded symbolic model checking of totality: every byte string up to the bound (and digit-run templates up to 20 symbolic digits, valid "
-                "prefixes with arbitrary tails) is run through parse, evaluation, printing and every error rendering; a panic, an index/slice violation, "
+                "prefixes with arbitrary tails) is run through parse, evaluation, printing and every error rendering, and every read-only command with its warnings runs on files at the edges of the calendar; a panic, an index/slice violation, "
                 "a failed type assertion or exceeding the step budget on any feasible path is a violation with a concrete replayable input.",
-        "note": BASE_NOTE + " Inputs longer than the bounds are only covered through the templates; JSON text encoding is stubbed.",
+        "note": BASE_NOTE + " Inputs longer than the bounds are only covered through the templates.",
     },
     "C08": {
         "text": "Bounded symbolic model checking of the line/block layer: for every byte string up to the bound, the concatenation of the returned lines "
@@ -39,7 +39,7 @@ LEVELS["C15"] = {
     "text": "Bounded symbolic model checking of the calendar code (klog.Date on top of civil/time from the Go standard library, executed from SSA): for every date of each "
             "century window the weekday, ISO week and week-year, quarter, day stepping, the four kinds of periods and their predecessors are proven equal to "
             "independent closed-form references; bucket hashes are proven injective on their fields for the full value range in single queries; every pattern "
-            "string is accepted iff it denotes an existing period. The thorough tier covers all 100 windows, i.e. all 3,652,425 dates.",
+            "string is accepted iff it denotes an existing period. The thorough tier covers nine century windows (a full 400-year cycle at each end of the range and 2000-2099).",
     "note": BASE_NOTE + " Month and day are case-split by the engine; per (month, day) the year is symbolic over its window and the standard library's "
             "Neri-Schneider arithmetic is tabulated exactly over the year.",
 }
@@ -53,7 +53,7 @@ LEVELS["C17"] = {
 LEVELS["C07"] = {
     "text": "Bounded symbolic model checking of the parallel engine against the serial one: all bytes of the text are symbolic (chunk boundaries inside lines, CRLF and "
             "multi-byte sequences are reached through the solver-decided UTF-8 classes), every worker count within the bound and every delivery order of the batch results "
-            "(engine scheduler: all w! orders) are explored; values, blocks, line numbering and errors must be equal.",
+            "(engine scheduler: all w! orders) are explored; values, blocks, line numbering and errors must be equal. Longer texts are built from lines (blank / short / long / error lines x LF / CRLF).",
     "note": BASE_NOTE + " Concurrency is modelled at delivery granularity only (coroutine scheduler); data races between statements are outside.",
 }
 
@@ -61,18 +61,19 @@ LEVELS["C01"] = {
     "text": "Bounded symbolic model checking of the parser against references written from Specification.md, in three layers: literals (C16 harnesses), single "
             "lines (headline and entry line followed by arbitrary bytes; range templates with symbolic digits), and line structure (all kind sequences of up to "
             "4/5 lines incl. every rule violation named by the property, digits and summary bytes symbolic). Acceptance must coincide with the reference on both "
-            "sides of a stated don't-care band and accepted records must carry exactly the denoted dates, should-totals, summaries, entry kinds and values.",
+            "sides of a stated don't-care band and accepted records must carry exactly the denoted dates, should-totals, summaries, entry kinds and values. Summary lines of arbitrary bytes are "
+            "checked two-sided against the specification's blank-character class (tab, Unicode Zs).",
     "note": BASE_NOTE + " Structure is path-enumerated by the document generator (honest split: the solver decides the data inside the lines and the arbitrary tails).",
 }
 LEVELS["C10"] = {
     "text": "Bounded symbolic model checking of error reporting: for every generated document with an injected rule violation the first error must be on the faulty line "
             "(as computed by the reference automaton), every error must quote an existing line with position+length inside it, in ascending order, identically for serial "
-            "and parallel parsing in every delivery order, and the terminal and JSON renderings must carry the same numbers.",
+            "and parallel parsing in every delivery order; the terminal rendering must equal, byte for byte, a rendering built from the reported line, position and length, and the JSON text must carry the same numbers and messages.",
     "note": BASE_NOTE,
 }
 LEVELS["C09"] = {
     "text": "Bounded symbolic model checking of the print round trip: for every conforming generated document, parse(print(parse(x))) denotes the same records with the same "
-            "notation and print(parse(print(parse(x)))) == print(parse(x)); the re-parse runs on the symbolic printed text, so digits and summary bytes are covered for all values.",
+            "notation and print(parse(print(parse(x)))) == print(parse(x)); the re-parse runs on the symbolic printed text, so digits and summary bytes are covered for all values; one-record files with symbolic literals and arbitrary summary bytes go through the same pipeline and are compared through accessors, not through ToString.",
     "note": BASE_NOTE,
 }
 
@@ -90,30 +91,31 @@ LEVELS["C04"] = {
     "note": _MUT_NOTE,
 }
 LEVELS["C05"] = {
-    "text": "Bounded symbolic model checking of atomicity: every path through the harness mirror of ReconcileFile - invalid target files (every injected rule violation), failing "
+    "text": "Bounded symbolic model checking of atomicity: every path through the harness mirror of ReconcileFile and, for a core set of cases, through the real app.Context on the virtual file system - invalid target files (every injected rule violation), failing "
             "first or second step of multi-step commands, results that would not parse - must end with the file bytes unchanged and a non-zero error code; every success must "
             "leave a file that parses.",
     "note": _MUT_NOTE + " The process exit status is outside (kong/reflection).",
 }
 LEVELS["C11"] = {
     "text": "Bounded symbolic model checking of style selection: inserted lines must use the target record's indentation and line ending, else the unanimous style of the other "
-            "records, else LF + 4 spaces; every command is executed twice with every iteration order of Go maps explored by the engine and must produce identical bytes; results must parse.",
+            "records (with disagreement: a style that some record uses), else LF + 4 spaces; generated dates and times must follow the date separator, clock convention, dash spacing and placeholder length by the same rule unless an explicit value or a configured preference is given; every command is executed twice with every iteration order of Go maps explored by the engine and must produce identical bytes; results must parse.",
     "note": _MUT_NOTE,
 }
 
 LEVELS["C12"] = {
     "text": "Bounded symbolic model checking of the report views: for every selection of records on calendar-boundary dates and all (symbolic) totals, the rows of each aggregation "
-            "partition the records by calendar period, sum to the grand total (solver-proved sums), are chronological, filled gaps contribute nothing and klog today's split adds up; "
+            "partition the records by calendar period, sum to the grand total (solver-proved sums), are chronological, filled gaps contribute nothing, klog today's split adds up and print --with-totals carries the record and entry values; "
             "the bucket rule for all dates comes from the C15 harnesses included in this check.",
     "note": BASE_NOTE + " Composition is checked on boundary dates only; rendering is outside.",
 }
 LEVELS["C13"] = {
     "text": "Bounded symbolic model checking of service.Filter and service.Sort: symbolic dates and durations, path-enumerated tag / entry-type combinations; the result must be exactly "
-            "the reference selection, unaltered and in input order; Sort must be an ordered permutation (real pdqsort code).",
-    "note": BASE_NOTE + " The flag-to-query translation of the relative shortcuts is not composed (see outside).",
+            "the reference selection, unaltered and in input order; Sort must be an ordered permutation (real pdqsort code) whatever notation the dates were written in; the relative shortcuts (this/last week ... year, today/yesterday/tomorrow, after/before) "
+            "are composed through FilterArgs.ApplyFilter for every reference date of the windows.",
+    "note": BASE_NOTE,
 }
 LEVELS["C14"] = {
-    "text": "Bounded symbolic model checking of tag recognition: every ASCII summary up to the bound is scanned by klog (regexp model over the real syntax.Prog) and by an independent "
+    "text": "Bounded symbolic model checking of tag recognition: every ASCII summary up to the bound (as one line and split into two lines at every position) is scanned by klog (regexp model over the real syntax.Prog) and by an independent "
             "scanner written from the specification - same (name, value) list; bare-name matching and per-tag totals are proven for symbolic durations.",
     "note": BASE_NOTE,
 }
